@@ -537,15 +537,20 @@ def _probe_class(module, name, key, table_params, do_fit=True, budget_s=20.0):
             seen_kinds.add(st)
             if "SCRM".index(st) > "SCRM".index(worst):
                 worst = st
-        if worst == "S" and p.default is not p.empty:
+        if p.default is not p.empty:
             # the default itself must come back unchanged
             try:
-                with warnings.catch_warnings():
-                    warnings.simplefilter("ignore")
-                    obj = cls(**required)
+                try:
+                    with warnings.catch_warnings():
+                        warnings.simplefilter("ignore")
+                        obj = cls(**required)
+                except BaseException as e:
+                    if isinstance(e, (KeyboardInterrupt, SystemExit)):
+                        raise
+                    raise _Timeout()          # cannot construct the default instance: nothing to read
                 got = getattr(obj, p.name)
                 if not (got is p.default or _equiv(got, p.default, True)):
-                    worst = "C"
+                    worst = "C" if worst == "S" else worst
                     seen_kinds.add("D")          # the default itself comes back changed
             except AttributeError:
                 worst = "M"
